@@ -12,7 +12,7 @@
 From Coq Require Import List ZArith.
 From Coq Require Import Reals.
 From Flocq Require Import IEEE754.Binary IEEE754.Bits.
-From RtoscV Require Import Auto.F32 Auto.AutoModel Auto.AutoMapModel Auto.AutoProofs Auto.AutoMapProofs Auto.AutoRemapProofs Auto.AutoRegress Auto.AutoMapRegress.
+From RtoscV Require Import Auto.F32 Auto.AutoModel Auto.AutoMapModel Auto.AutoProofs Auto.AutoMapProofs Auto.AutoRemapProofs Auto.FloatOrder Auto.AutoMonoProofs Auto.AutoCpProofs Auto.AutoDefaultProofs Auto.AutoLogProofs Auto.AutoRegress Auto.AutoMapRegress.
 Import ListNotations.
 Local Open Scope Z_scope.
 
@@ -113,38 +113,68 @@ Theorem C19_toggle : forall (expf_o : f32 -> f32) s value,
   sub_output expf_o s value = [MsgT (s_path s) (gt32 (lin value (cp1 s) (cp3 s)) f32_half)].
 Proof. exact toggle_output. Qed.
 
-(* the value never decreases when the slot value increases (for positive gain).
-   FULL STATEMENT (not proved): for every gain > 0, min <= max and all slot values.
-   PROVED: under the side condition [no overflow] - the control points that
-   updateMapping computes and the two linear images v*(b-a)+a are finite floats
-   (violated only by magnitudes near 3.4e38).  [remap s0] is the sub-automation
-   after updateMapping; gain >= 0 and min <= max are the property's own
-   hypotheses. *)
-Theorem C19_monotone_partial : forall (expf_o : f32 -> f32) s0 v1 v2,
+(* the value never decreases when the slot value increases (for positive gain):
+   FULL for all finite slot values.  [remap s0] is the sub-automation after
+   updateMapping; [nn32 (gain s0)]: the gain is not negative (0 <= gain; +inf and
+   NaN gains included); the offset is arbitrary; no condition on overflow: a
+   product or sum that overflows goes to the infinity of the right sign and is
+   clamped, NaN (inf-inf, 0*inf) is clamped to the minimum and arises for all
+   slot values or only below the step. *)
+Theorem C19_monotone : forall (expf_o : f32 -> f32) s0 v1 v2,
   let s := remap s0 in
   used s0 = true -> s_type s0 = ch_f -> s_scale s0 = 0 ->
   finite32 (s_min s0) -> finite32 (s_max s0) -> (val (s_min s0) <= val (s_max s0))%R ->
-  (0 <= val (gain s0))%R ->
-  finite32 (cp1 s) -> finite32 (cp3 s) ->
-  (val v1 <= val v2)%R ->
-  finite32 (lin v1 (cp1 s) (cp3 s)) -> finite32 (lin v2 (cp1 s) (cp3 s)) ->
+  nn32 (gain s0) ->
+  finite32 v1 -> finite32 v2 -> (val v1 <= val v2)%R ->
   exists c1 c2, sub_output expf_o s v1 = [MsgF (s_path s) c1] /\
-                sub_output expf_o s v2 = [MsgF (s_path s) c2] /\ (val c1 <= val c2)%R.
-Proof. exact remap_float_monotone. Qed.
+                sub_output expf_o s v2 = [MsgF (s_path s) c2] /\
+                finite32 c1 /\ finite32 c2 /\ (val c1 <= val c2)%R.
+Proof. exact float_monotone_full. Qed.
 
-Theorem C19_monotone_int_partial : forall (expf_o : f32 -> f32) s0 v1 v2 a b,
+Theorem C19_monotone_int : forall (expf_o : f32 -> f32) s0 v1 v2 a b,
   let s := remap s0 in
   used s0 = true -> s_type s0 = ch_i ->
   finite32 (s_min s0) -> finite32 (s_max s0) ->
   val (s_min s0) = IZR a -> val (s_max s0) = IZR b -> a <= b ->
   -2147483648 <= a -> b <= 2147483647 ->
-  (0 <= val (gain s0))%R ->
-  finite32 (cp1 s) -> finite32 (cp3 s) ->
-  (val v1 <= val v2)%R ->
-  finite32 (lin v1 (cp1 s) (cp3 s)) -> finite32 (lin v2 (cp1 s) (cp3 s)) ->
+  nn32 (gain s0) ->
+  finite32 v1 -> finite32 v2 -> (val v1 <= val v2)%R ->
   exists z1 z2, sub_output expf_o s v1 = [MsgI (s_path s) z1] /\
                 sub_output expf_o s v2 = [MsgI (s_path s) z2] /\ z1 <= z2.
-Proof. exact remap_int_monotone. Qed.
+Proof. exact int_monotone_full. Qed.
+
+(* a finite non-negative gain is such a gain *)
+Theorem C19_gain_nonneg : forall g, finite32 g -> (0 <= val g)%R -> nn32 g.
+Proof. exact nn32_of_nonneg. Qed.
+
+(* updateMapping never inverts the control points (overflow and NaN included) *)
+Theorem C19_control_points_not_inverted : forall s,
+  finite32 (s_min s) -> finite32 (s_max s) -> (val (s_min s) <= val (s_max s))%R ->
+  nn32 (gain s) ->
+  lt32 (cp3 (remap s)) (cp1 (remap s)) = false.
+Proof. exact remap_not_inverted. Qed.
+
+(* the mapping itself: any control points that are not inverted (NaN allowed),
+   all finite slot values *)
+Theorem C19_lin_clamp_monotone : forall a b mn mx v1 v2,
+  finite32 mn -> finite32 mx -> (val mn <= val mx)%R ->
+  lt32 b a = false ->
+  finite32 v1 -> finite32 v2 -> (val v1 <= val v2)%R ->
+  finite32 (clamp (lin v1 a b) mn mx) /\ finite32 (clamp (lin v2 a b) mn mx) /\
+  (val (clamp (lin v1 a b) mn mx) <= val (clamp (lin v2 a b) mn mx))%R.
+Proof. exact lin_clamp_monotone. Qed.
+
+(* what remains false: with an INFINITE slot value the statement fails (equal
+   control points: inf * 0 = NaN goes to the minimum, every finite slot value to
+   the maximum).  Reproduced on the real code (notes/C19.md). *)
+Theorem C19_monotone_infinite_refuted :
+  lt32 (cp3 inf_witness_sub) (cp1 inf_witness_sub) = false /\
+  fle inf_witness_v1 inf_witness_v2 /\
+  bits_of_b32 (clamp (lin inf_witness_v1 (cp1 inf_witness_sub) (cp3 inf_witness_sub))
+                     (s_min inf_witness_sub) (s_max inf_witness_sub)) = 1060320051 /\
+  bits_of_b32 (clamp (lin inf_witness_v2 (cp1 inf_witness_sub) (cp3 inf_witness_sub))
+                     (s_min inf_witness_sub) (s_max inf_witness_sub)) = 1036831949.
+Proof. exact monotone_infinite_refuted. Qed.
 
 (* updateMapping orders the control points for gain >= 0 and min <= max *)
 Theorem C19_control_points_ordered : forall s,
@@ -202,3 +232,81 @@ Theorem C19_in_range_regress :
   is_nan 24 128 (clamp_old v (s_min huge_gain_sub) (s_max huge_gain_sub)) = true /\
   bits_of_b32 (clamp v (s_min huge_gain_sub) (s_max huge_gain_sub)) = 3212836864.
 Proof. exact nan_clamp_refuted. Qed.
+
+(* ---- stage 2: the default mapping without the decidable side condition ------------------ *)
+(* updateMapping at gain 100 / offset 0 yields control points equal to the bounds
+   whenever its four binary32 operations are exact: min+max, (min+max)/2, max-min
+   and (max-min)*100 representable ([F32]) and below 2^128 *)
+Theorem C19_default_points_exact : forall mn mx : f32,
+  finite32 mn -> finite32 mx ->
+  F32 (val mn + val mx) -> F32 ((val mn + val mx) / 2) ->
+  F32 (val mx - val mn) -> F32 ((val mx - val mn) * 100) ->
+  (Rabs (val mn + val mx) < Mx 128)%R -> (Rabs ((val mx - val mn) * 100) < Mx 128)%R ->
+  let c := map_center mn mx f32_0 in
+  let r := map_range mn mx f32_100 in
+  finite32 (map_cp1 c r) /\ finite32 (map_cp3 c r) /\
+  val (map_cp1 c r) = val mn /\ val (map_cp3 c r) = val mx.
+Proof. exact default_points_exact_if. Qed.
+
+(* every integer range with |a+b| < 2^24 and |b-a|*100 < 2^24 is of that kind *)
+Theorem C19_default_points_exact_int : forall (mn mx : f32) a b,
+  finite32 mn -> finite32 mx -> val mn = IZR a -> val mx = IZR b ->
+  Z.abs (a + b) < 2 ^ 24 -> Z.abs ((b - a) * 100) < 2 ^ 24 ->
+  let c := map_center mn mx f32_0 in
+  let r := map_range mn mx f32_100 in
+  finite32 (map_cp1 c r) /\ finite32 (map_cp3 c r) /\
+  val (map_cp1 c r) = IZR a /\ val (map_cp3 c r) = IZR b.
+Proof. exact default_points_exact_int. Qed.
+
+(* between such control points the slot value v is mapped to
+   fl(fl(v*(max-min)) + min): 0 goes to min and 1 goes to max, exactly *)
+Theorem C19_default_linear : forall (a b : f32) (mn mx : R),
+  val a = mn -> val b = mx -> F32 (mx - mn) ->
+  (forall v, finite32 (lin v a b) -> val (lin v a b) = rnd32 (rnd32 (val v * (mx - mn)) + mn)) /\
+  (finite32 (lin f32_0 a b) -> val (lin f32_0 a b) = mn) /\
+  (finite32 (lin f32_1 a b) -> val (lin f32_1 a b) = mx).
+Proof. exact default_linear_exact. Qed.
+
+(* for other ranges the statement "0 goes to min" is false at the last bits:
+   0.1 .. 0.7 gets control_points[1] = min + 3 ulp (same on the real code) *)
+Theorem C19_default_points_inexact_refuted :
+  let mn := b32_of_bits 1036831949 in let mx := b32_of_bits 1060320051 in
+  let c := map_center mn mx f32_0 in let r := map_range mn mx f32_100 in
+  default_points_exact mn mx = false /\
+  bits_of_b32 (map_cp1 c r) = 1036831952 /\ bits_of_b32 (map_cp3 c r) = 1060320051 /\
+  bits_of_b32 (clamp (lin f32_0 (map_cp1 c r) (map_cp3 c r)) mn mx) = 1036831952.
+Proof. exact default_points_inexact_witness. Qed.
+
+(* ---- stage 2: log-scale parameters under oracle hypotheses -------------------------------- *)
+(* logf / expf are libm's: arbitrary functions here, constrained only by
+   [exp_mono], [log_mono] and [roundtrip ... eps] (Auto/AutoLogProofs.v; sampled on
+   the real libm by the 'orc' stream of every run).  A log-scale parameter with
+   declared bounds 0 < min <= max receives a value in [min*(1-eps), max*(1+eps)] -
+   for every slot value, gain and offset: the clamp acts in the log domain *)
+Theorem C19_log_in_range : forall (logf_o expf_o : f32 -> f32) (eps : R),
+  exp_mono expf_o -> log_mono logf_o -> roundtrip logf_o expf_o eps ->
+  forall s v mn mx,
+  used s = true -> s_type s = ch_f -> s_scale s = 1 ->
+  finite32 mn -> finite32 mx -> (0 < val mn)%R -> (val mn <= val mx)%R ->
+  s_min s = logf_o mn -> s_max s = logf_o mx ->
+  exists o, sub_output expf_o s v = [MsgF (s_path s) o] /\ finite32 o /\
+            (val mn * (1 - eps) <= val o <= val mx * (1 + eps))%R.
+Proof. exact log_in_range. Qed.
+
+(* and its value never decreases when the (finite) slot value increases, for every
+   gain that is not negative *)
+Theorem C19_log_monotone : forall (expf_o : f32 -> f32), exp_mono expf_o ->
+  forall s0 v1 v2,
+  let s := remap s0 in
+  used s0 = true -> s_type s0 = ch_f -> s_scale s0 = 1 ->
+  finite32 (s_min s0) -> finite32 (s_max s0) -> (val (s_min s0) <= val (s_max s0))%R ->
+  nn32 (gain s0) ->
+  finite32 v1 -> finite32 v2 -> (val v1 <= val v2)%R ->
+  exists o1 o2, sub_output expf_o s v1 = [MsgF (s_path s) o1] /\
+                sub_output expf_o s v2 = [MsgF (s_path s) o2] /\ fle o1 o2.
+Proof. exact log_monotone. Qed.
+
+(* the oracle hypotheses are satisfiable *)
+Theorem C19_log_oracles_consistent :
+  exp_mono (fun x => x) /\ log_mono (fun x => x) /\ roundtrip (fun x => x) (fun x => x) 0.
+Proof. exact oracle_hypotheses_consistent. Qed.
